@@ -113,7 +113,7 @@ def strValid (s : List Spell) : Bool := s.all Spell.valid
 
 def isDigit (c : Nat) : Bool := 48 ≤ c && c ≤ 57
 
-/-- a number with a fraction and/or an exponent -/
+/-- a number with a fraction and/or an exponent, or an integer literal beyond int64: read as a double -/
 structure NumTok where
   neg : Bool
   ip : Nat                                   -- integer part, written without leading zeros
@@ -129,12 +129,15 @@ def NumTok.tail (t : NumTok) : Bytes :=
 
 def NumTok.text (t : NumTok) : Bytes := signText t.neg ++ Conv.digits t.ip ++ t.tail
 
+/-- an integer literal outside int64 (the parser reads such a literal as a double) -/
+def NumTok.big (t : NumTok) : Bool := if t.neg then t.ip > 2 ^ 63 else t.ip ≥ 2 ^ 63
+
 def NumTok.valid (t : NumTok) : Bool :=
   (match t.frac with | some ds => !ds.isEmpty && ds.all isDigit | none => true) &&
   (match t.exp with
    | some (e, s, ds) => (e = 101 || e = 69) && (s = [] || s = [43] || s = [45]) && !ds.isEmpty && ds.all isDigit
    | none => true) &&
-  (t.frac.isSome || t.exp.isSome)
+  (t.frac.isSome || t.exp.isSome || t.big)
 
 /-! ### documents -/
 
@@ -280,9 +283,14 @@ end
 
 def bytesOk (s : Bytes) : Bool := s.all (· < 256)
 
+/-- the bit pattern is not NaN / infinity -/
+def finiteBits (bits : Nat) : Bool := bits / 2 ^ 52 % 2048 ≠ 2047
+
 mutual
-  /-- what a `struct jbl_node` tree can hold: int64 integers, byte strings, keys that are C strings -/
+  /-- what a JSON document in a `struct jbl_node` tree holds: int64 integers, finite doubles, byte strings,
+      keys that are C strings -/
   def printable : JVal → Bool
+    | .f64 b => finiteBits b
     | .int i => -(2 ^ 63 : Int) ≤ i && i < (2 ^ 63 : Int)
     | .str s => bytesOk s
     | .arr xs => printableL xs
